@@ -19,15 +19,17 @@ pub fn run(args: &[String]) {
             let size_small = if log < 7 { 1u64 << log } else { 64 };
             let n = match k % 6 { 0 => 1, 1 => 2 + rng.below(8), 2 => size_small.min(48), 3 => (size_small + 1 + rng.below(4)).min(60), 4 => 48, _ => 1 + rng.below(48) };
             let seed = rng.felt();
-            let mut tr = Transcript::new(seed);
+            // the transcript may already have been squeezed when the queries are drawn: the samples are H(digest, counter + i)
+            let c0: u64 = match (log + k) % 4 { 0 => 0, 1 => 1, 2 => 3 + rng.below(5), _ => 50 + rng.below(20) };
+            let mut tr = Transcript::new_with_counter(seed, Felt::from(c0));
             let bound = Felt::TWO.pow(log);
             let _ = verif::take();
-            t.line(&json!({"ev":"reset","case":case,"digest":hex(&seed),"log":log,"n":n}));
+            t.line(&json!({"ev":"reset","case":case,"digest":hex(&seed),"counter":hex(&Felt::from(c0)),"log":log,"n":n}));
             case += 1;
             let r = guarded(|| generate_queries(&mut tr, Felt::from(n), bound));
             for e in &verif::take() { t.line(&annotate(e)); }
             let q = match r {
-                Ok(q) => { t.line(&json!({"ev":"queries.ret","out":hexs(q.iter())})); q }
+                Ok(q) => { t.line(&json!({"ev":"queries.ret","out":hexs(q.iter()),"counter_after":hex(tr.counter())})); q }
                 Err(p) => { t.line(&json!({"ev":"queries.panic","where":p})); continue; }
             };
             // split log into trace/coset parts
